@@ -222,7 +222,7 @@ broadcast use crate::vspec::group_seq_views;''')
         f'[C09:fixed-value] res matches Ok(v) ==> v as nat == {O}.u(0, n as int)'])
     reader.splice('endian', ret='res', ensures=['res.big() == self.rv().be'])
     reader.splice('len', ret='res', ensures=['res.as_nat() == self.rv().len'])
-    reader.splice('empty', ensures=[f'{F}.len == 0', f'{F}.be == {O}.be', f'{F}.root == {O}.root'])
+    reader.splice('empty', ensures=[f'[C10:view] trunc({O}, {F}, 0)'])
     reader.splice('truncate', ret='res', ensures=[
         f'[C10:view] res is Ok ==> trunc({O}, {F}, len.as_nat())',
         f'[C01:err-no-consume] res is Err ==> unch({O}, {F})',
